@@ -194,6 +194,38 @@ func init() {
 			}
 			return exp
 		})
+	// all names of an aliased number are deleted, but only a proper subset of them is reserved:
+	// the names that are not reserved were deleted without the reservation the rule demands
+	c03Reg("enum-value-delete-all-aliases-one-name-reserved", []string{"ENUM_VALUE_NO_DELETE", "ENUM_VALUE_NO_DELETE_UNLESS_NAME_RESERVED", "ENUM_VALUE_NO_DELETE_UNLESS_NUMBER_RESERVED"},
+		valueSites(aliasedNonFirst), func(e *c03Env, st c03Site) []c03Expect {
+			en := e.New.Enum(st.A)
+			num := -1
+			for _, x := range en.E.Values {
+				if x.Name == st.B {
+					num = x.Number
+				}
+			}
+			var out []*gen.EnumValue
+			var names []string
+			for _, x := range en.E.Values {
+				if x.Number == num {
+					names = append(names, x.Name)
+				} else {
+					out = append(out, x)
+				}
+			}
+			if len(names) < 2 {
+				return nil
+			}
+			en.E.Values = out
+			fixAlias(en.E)
+			en.E.ReservedNames = append(en.E.ReservedNames, names[0])
+			var exp []c03Expect
+			for _, r := range []string{"ENUM_VALUE_NO_DELETE", "ENUM_VALUE_NO_DELETE_UNLESS_NAME_RESERVED", "ENUM_VALUE_NO_DELETE_UNLESS_NUMBER_RESERVED"} {
+				exp = append(exp, c03Expect{Rule: r, AnyOf: append([]string{q(num)}, names...), File: en.File.Path, Spans: []string{"enum:" + en.Full}})
+			}
+			return exp
+		})
 	c03Reg("enum-value-rename", []string{"ENUM_VALUE_SAME_NAME"},
 		valueSites(func(x *c03Idx, en *c03Enum, i int) bool {
 			return countNumber(en.E, en.E.Values[i].Number) == 1 && !enumValueUsedAsDefault(x, en.Full, en.E.Values[i].Name)
